@@ -77,8 +77,12 @@ async def _read_all(stream: bytes, cuts, lazy, max_calls, stats=None):
             if f is None:
                 out.append(("I", n))
             else:
+                try:
+                    payload = hexs(f.message)
+                except Exception as e:  # noqa: BLE001 -- reading the delivered payload must not raise
+                    payload = "!" + type(e).__name__
                 out.append(("D", int(f.frame_type), int(f.recipient), int(f.sender), int(f.econet_type),
-                            int(f.econet_version), hexs(f.message), n,
+                            int(f.econet_version), payload, n,
                             type(f).__name__))
         elif isinstance(exc, ProtocolError):
             out.append(("E", type(exc).__name__, n))
